@@ -180,3 +180,10 @@ Theorem C14_roc_pow2_binary64 : forall k x r x' r', scaled k x x' -> scaled k r 
   (Rabs (FR (x - r)%float / FR r) <= BIG / 256)%R ->
   finF (groc_val FOps r x) /\ finF (groc_val FOps r' x') /\ FR (groc_val FOps r' x') = FR (groc_val FOps r x).
 Proof. exact roc_pow2_invariant. Qed.
+(* FastStochastic's %K = ((x - lo) / (hi - lo)) * 100 on the window extremes (C03_fast: the model's formula for every number type) *)
+Theorem C14_fast_pow2_binary64 : forall k x lo hi x' lo' hi', scaled k x x' -> scaled k lo lo' -> scaled k hi hi' ->
+  (Rabs (FR x - FR lo) <= BIG)%R -> (Rabs ((FR x - FR lo) * bpow radix2 k) <= BIG)%R -> zero_or_normal k (FR x - FR lo) ->
+  (Rabs (FR hi - FR lo) <= BIG)%R -> (Rabs ((FR hi - FR lo) * bpow radix2 k) <= BIG)%R -> zero_or_normal k (FR hi - FR lo) ->
+  FR (hi - lo)%float <> 0%R -> (Rabs (FR (x - lo)%float / FR (hi - lo)%float) <= BIG / 256)%R ->
+  FR (((x' - lo') / (hi' - lo')) * 100)%float = FR (((x - lo) / (hi - lo)) * 100)%float.
+Proof. exact fast_formula_pow2_invariant. Qed.
